@@ -156,6 +156,7 @@ type vfC10Case struct {
 	Srv     vfC10Srv   `json:"server"`
 	Clients []vfC10Cli `json:"clients,omitempty"`
 	Raw     []string   `json:"raw_cc_rx,omitempty"`
+	Note    string     `json:"note,omitempty"` // context when the case is one step of a history
 }
 
 // ---------------------------------------------------------------- observer (the source hook)
@@ -715,6 +716,230 @@ func vfC10RunFake(t *testing.T, k *vfKit, c vfC10FakeCase) {
 	})
 }
 
+// ---------------------------------------------------------------- histories (one *client.Config, several handshakes)
+
+// vfC10History: ONE *client.Config value is used for 2..4 successive handshakes against servers
+// (all at the same address) whose settings differ from step to step. Mode "newclient" calls
+// client.NewClient(cfg) again for every step; mode "reconnect" uses client.NewReconnectableClient
+// whose configFunc always returns that same cfg, and the server is replaced between steps.
+// Every handshake is judged by the same reference rule with the limits the client was ORIGINALLY
+// configured with: what an earlier server answered must not leak into a later negotiation.
+type vfC10History struct {
+	CaseID string     `json:"case_id"`
+	Mode   string     `json:"mode"`
+	Cli    vfC10Cli   `json:"client"`
+	Kinds  string     `json:"kinds"` // per step: A = server answers auto, N = numeric limit, U = unlimited (0)
+	Steps  []vfC10Srv `json:"steps"`
+}
+
+func vfC10RunHistory(t *testing.T, k *vfKit, h vfC10History) {
+	synctest.Test(t, func(t *testing.T) {
+		vfC10ForwardClock()
+		sink, ip, unreg := vfC10NewSink()
+		defer unreg()
+		srvAddr := &net.UDPAddr{IP: net.ParseIP(ip), Port: 443}
+		var (
+			mu       sync.Mutex
+			cur      *vfWorld
+			nconn    int
+			lastAddr *net.UDPAddr
+			infos    []*client.HandshakeInfo // reconnect mode: one per (re)connect, in order
+		)
+		cfg := &client.Config{
+			ConnFactory: &vfFactory{new: func() (net.PacketConn, error) {
+				mu.Lock()
+				defer mu.Unlock()
+				nconn++
+				lastAddr = &net.UDPAddr{IP: net.IPv4(10, 2, byte(nconn>>8), byte(nconn)), Port: 20000 + nconn}
+				return simnet.NewBlockingSimConn(lastAddr, cur.Router), nil
+			}},
+			ServerAddr: srvAddr,
+			Auth:       "ok:" + h.CaseID,
+			TLSConfig:  client.TLSConfig{InsecureSkipVerify: true, ServerName: "verif"},
+		}
+		cfg.QUICConfig.DisablePathMTUDiscovery = true
+		cfg.BandwidthConfig.MaxTx = uint64(h.Cli.MaxTx)
+		cfg.BandwidthConfig.MaxRx = uint64(h.Cli.MaxRx)
+		cfg.CongestionConfig.Type = h.Cli.CC.Type
+		cfg.CongestionConfig.BBRProfile = h.Cli.CC.Profile
+		origBW := cfg.BandwidthConfig
+
+		var rc client.Client
+		defer func() {
+			if rc != nil {
+				_ = rc.Close()
+			}
+		}()
+		for si, srv := range h.Steps {
+			step := vfC10Case{CaseID: h.CaseID, Srv: srv, Clients: []vfC10Cli{h.Cli},
+				Note: fmt.Sprintf("step %d of history %s (%s), same *client.Config for every step", si+1, h.Kinds, h.Mode)}
+			w, err := vfNewWorld(vfServerOpts{
+				ServerIP: ip,
+				Config: func(sc *server.Config) {
+					sc.BandwidthConfig.MaxTx = uint64(srv.MaxTx)
+					sc.BandwidthConfig.MaxRx = uint64(srv.MaxRx)
+					sc.IgnoreClientBandwidth = srv.Ignore
+					sc.CongestionConfig.Type = srv.CC.Type
+					sc.CongestionConfig.BBRProfile = srv.CC.Profile
+				},
+			})
+			if err != nil {
+				t.Fatalf("harness: history server %+v: %v", srv, err)
+			}
+			sink.setLog(w.Log)
+			mu.Lock()
+			cur = w
+			before := nconn
+			mu.Unlock()
+			o := vfC10ConnObs{}
+			var info *client.HandshakeInfo
+			if h.Mode == "newclient" {
+				cl, inf, err := client.NewClient(cfg)
+				if err != nil {
+					o.Err = err.Error()
+				} else {
+					info = inf
+					w.onClose(func() { _ = cl.Close() })
+				}
+			} else if si == 0 {
+				rc, err = client.NewReconnectableClient(func() (*client.Config, error) { return cfg, nil },
+					func(_ client.Client, inf *client.HandshakeInfo, _ int) {
+						mu.Lock()
+						infos = append(infos, inf)
+						mu.Unlock()
+					}, false)
+				if err != nil {
+					o.Err = err.Error()
+					rc = nil
+				}
+			} else if rc != nil {
+				// the previous server is gone: calls fail until the client notices and reconnects
+				for try := 0; try < 8; try++ {
+					if conn, err := rc.TCP(fmt.Sprintf("hist-%d.verif:80", si)); err == nil {
+						_ = conn.Close()
+					}
+					mu.Lock()
+					done := len(infos) > si
+					mu.Unlock()
+					if done {
+						break
+					}
+					time.Sleep(time.Second)
+				}
+			}
+			if h.Mode == "reconnect" && o.Err == "" {
+				mu.Lock()
+				if len(infos) > si {
+					info = infos[si]
+				} else {
+					o.Err = "reconnectable client did not (re)connect"
+				}
+				mu.Unlock()
+			}
+			mu.Lock()
+			if nconn == before+1 && lastAddr != nil {
+				o.Tag = lastAddr.String()
+			} else if o.Err == "" {
+				o.Err = fmt.Sprintf("expected exactly one connection attempt in this step, saw %d", nconn-before)
+			}
+			mu.Unlock()
+			if info != nil && o.Err == "" {
+				o.InfoTx, o.InfoUDP, o.Status = info.Tx, info.UDPEnabled, 233
+			}
+			synctest.Wait()
+			evs := w.Log.Snapshot()
+			w.Close()
+			synctest.Wait()
+			if o.Err == "" {
+				k.Count("ev_history_steps", 1)
+				if si > 0 {
+					k.Count("ev_history_steps_after_"+h.Kinds[si-1:si], 1)
+				}
+			}
+			vfC10JudgeWorld(k, step, sink, []vfC10ConnObs{o}, nil, evs)
+			// the caller's configuration still says what the caller wrote into it
+			if cfg.BandwidthConfig != origBW {
+				k.Violation("client:handshake-rewrites-callers-bandwidth-config", map[string]any{"case_id": h.CaseID, "history": h, "step": si + 1,
+					"before": fmt.Sprintf("%+v", origBW), "after": fmt.Sprintf("%+v", cfg.BandwidthConfig)},
+					"history %s (%s): after step %d (server{maxRx=%d ignore=%v}) the caller's client.Config.BandwidthConfig changed from %+v to %+v",
+					h.Kinds, h.Mode, si+1, uint64(srv.MaxRx), srv.Ignore, origBW, cfg.BandwidthConfig)
+				origBW = cfg.BandwidthConfig // report each rewrite once; later steps are still judged by the ORIGINAL limits (h.Cli)
+			} else {
+				k.Count("ev_config_unchanged", 1)
+			}
+		}
+	})
+}
+
+// vfC10GenHistories: every order of {auto, numeric, unlimited} servers of length 2 (both modes) and 3,
+// plus PRNG sequences of length 4 (quick); all sequences of length 2..4 x both modes x 3 client
+// configurations (thorough).
+func vfC10GenHistories(k *vfKit) []vfC10History {
+	var out []vfC10History
+	V := vfC10Vals
+	nums := []uint64{65536, 1_000_000, 1_000_000_000, math.MaxUint64, 65537}
+	clis := []vfC10Cli{
+		{MaxTx: 1_000_000, MaxRx: 1_000_000_000, CC: vfC10CCs[0]},
+		{MaxTx: vfC10U64(math.MaxUint64), MaxRx: 0, CC: vfC10CCs[3]},
+		{MaxTx: 65537, MaxRx: 65536, CC: vfC10CCs[2]},
+		{MaxTx: 1_000_000_000, MaxRx: vfC10U64(math.MaxUint64), CC: vfC10CCs[1]},
+		{MaxTx: 0, MaxRx: 1_000_000, CC: vfC10CCs[0]},
+	}
+	n := 0
+	mk := func(kinds string, mode string, cli vfC10Cli) {
+		h := vfC10History{CaseID: fmt.Sprintf("c10h-%s-%s-%d", kinds, mode, n), Mode: mode, Cli: cli, Kinds: kinds}
+		for i, kd := range kinds {
+			srv := vfC10Srv{MaxTx: vfC10U64(V[(n+i)%len(V)]), CC: vfC10CCs[(n+2*i)%4]}
+			switch kd {
+			case 'A':
+				srv.Ignore, srv.MaxRx = true, vfC10U64(V[(n+i+1)%len(V)])
+			case 'N':
+				srv.MaxRx = vfC10U64(nums[(n+i)%len(nums)])
+			}
+			h.Steps = append(h.Steps, srv)
+		}
+		out = append(out, h)
+		n++
+	}
+	var seqs func(prefix string, l int, f func(string))
+	seqs = func(prefix string, l int, f func(string)) {
+		if l == 0 {
+			f(prefix)
+			return
+		}
+		for _, c := range "ANU" {
+			seqs(prefix+string(c), l-1, f)
+		}
+	}
+	modes := []string{"newclient", "reconnect"}
+	if k.Quick() {
+		seqs("", 2, func(s string) {
+			mk(s, modes[0], clis[n%4])
+			mk(s, modes[1], clis[n%4])
+		})
+		seqs("", 3, func(s string) { mk(s, modes[n%2], clis[n%len(clis)]) })
+		r := k.Rand("history")
+		for i := 0; i < 12; i++ {
+			s := ""
+			for j := 0; j < 4; j++ {
+				s += string("ANU"[r.Intn(3)])
+			}
+			mk(s, modes[i%2], clis[r.Intn(len(clis))])
+		}
+		return out
+	}
+	for l := 2; l <= 4; l++ {
+		seqs("", l, func(s string) {
+			for _, m := range modes {
+				for ci := 0; ci < 3; ci++ {
+					mk(s, m, clis[(n+ci)%len(clis)])
+				}
+			}
+		})
+	}
+	return out
+}
+
 // ---------------------------------------------------------------- case generation
 
 func vfC10Pick[T any](r interface{ Intn(int) int }, s []T) T { return s[r.Intn(len(s))] }
@@ -903,4 +1128,10 @@ func TestVerifC10FakeServer(t *testing.T) {
 	k := vfC10Kit(t, "c10-fakeserver")
 	defer k.Finish()
 	vfC10Each(t, k, vfC10GenFake(k), func(c vfC10FakeCase) string { return c.CaseID }, func(t *testing.T, c vfC10FakeCase) { vfC10RunFake(t, k, c) })
+}
+
+func TestVerifC10History(t *testing.T) {
+	k := vfC10Kit(t, "c10-history")
+	defer k.Finish()
+	vfC10Each(t, k, vfC10GenHistories(k), func(h vfC10History) string { return h.CaseID }, func(t *testing.T, h vfC10History) { vfC10RunHistory(t, k, h) })
 }
